@@ -735,9 +735,10 @@ class Hugr(Mapping[Node, NodeData], Generic[OpVarCov]):
         def get_offset(
             node: NodeIdx, offset: PortOffset | None, direction: Direction
         ) -> PortOffset | None:
-            # hugr-rs leaves out the offset of the order port of dataflow nodes
+            # The order port of a dataflow node is serialized after its other
+            # ports, see `_constrain_offset`. hugr-rs leaves out its offset.
             order_offset = _num_dataflow_ports(hugr[Node(node)].op, direction)
-            if order_offset is not None and offset is None:
+            if order_offset is not None and offset in (None, order_offset):
                 return -1
             return offset
 
